@@ -2,7 +2,10 @@
 (* `mos test': unit tests of 6502 code run on an emulated machine (property C18).           *)
 (*                                                                                          *)
 (* A project is [segdefs, items]:                                                           *)
-(*   segdefs  sequence of [name, bank, start]  (empty: one segment "default" at $C000)      *)
+(*   segdefs  sequence of [name, bank, start, pc, write, size]  (empty: one segment "default" *)
+(*            at $C000): pc = the address the segment's code runs at (start = where the file   *)
+(*            image has it), write = FALSE: not part of the file image, size = the bank's size  *)
+(*            option (0: none)                                                                *)
 (*   items    sequence of statements (field k):                                             *)
 (*     insn  [mn, form, e]          label  [name, hasBody, body]     braces [sid, body]      *)
 (*     const [name, e]              data   [w, es]                   loop   [n, sid, body]   *)
@@ -85,13 +88,13 @@ Truth(a, c, sigma) ==
 (* walk state: segs name -> [pc, mem], cur, scope, tab (definitions of this walk), idx (loop indices  *)
 (* in force), asserts, entry / entrySeg (of the active test), unres (a reference was unknown: the     *)
 (* statement emitted nothing, as in an assembler pass), bad (outside what this layout describes)       *)
-TPc(st) == st.segs[st.cur].pc
+TPc(st) == st.segs[st.cur].pc + st.segs[st.cur].toff          \* labels, `*', assertions and the cpu use target addresses
 Emit(st, bytes) ==
   LET s == st.segs[st.cur]
       n == Len(bytes) IN
   IF s.pc + n > 65536 THEN [st EXCEPT !.bad = TRUE]
-  ELSE [st EXCEPT !.segs[st.cur] = [pc |-> s.pc + n, mem |-> [a \in s.pc..(s.pc + n - 1) |-> bytes[a - s.pc + 1]] @@ s.mem],
-                  !.first = IF st.inTest /\ @ < 0 /\ n > 0 THEN s.pc ELSE @]
+  ELSE [st EXCEPT !.segs[st.cur] = [s EXCEPT !.pc = s.pc + n, !.mem = [a \in s.pc..(s.pc + n - 1) |-> bytes[a - s.pc + 1]] @@ s.mem],
+                  !.first = IF st.inTest /\ @ < 0 /\ n > 0 THEN s.pc + s.toff ELSE @]
 Define(st, name, v) == [st EXCEPT !.tab = (A!Key(st.scope, <<name>>) :> v) @@ @]
 Front(s) == SubSeq(s, 1, Len(s) - 1)
 
@@ -144,7 +147,7 @@ LayStmt(s, st, sigma, active) ==
     [] s.k = "loop" -> LayLoop(s, 0, st, sigma, active)
     [] s.k = "assert" ->
         (* captured wherever it is assembled while a test is active: inside the test, in scopes, in subroutines *)
-        [st EXCEPT !.asserts = Append(@, [aid |-> s.aid, pc |-> TPc(st), e |-> s.e, scope |-> st.scope, idx |-> st.idx,
+        [st EXCEPT !.asserts = Append(@, [aid |-> s.aid, pc |-> TPc(st), seg |-> st.cur, e |-> s.e, scope |-> st.scope, idx |-> st.idx,
                                           hasMsg |-> s.hasMsg, msg |-> s.msg])]
     [] s.k = "test" ->
         IF A!Key(st.scope, <<s.name>>) # active THEN st         \* bodies of the other tests are not assembled at all
@@ -163,6 +166,7 @@ LayStmt(s, st, sigma, active) ==
     [] s.k = "useseg" ->
         IF s.name \notin DOMAIN st.segs THEN [st EXCEPT !.bad = TRUE]
         ELSE [LaySeq(s.body, [st EXCEPT !.cur = s.name], sigma, active) EXCEPT !.cur = st.cur]
+    [] s.k = "iftest" -> LaySeq(s.body, st, sigma, active)      \* `.if defined(TEST) { .. }': TEST is defined whenever tests are run
     [] s.k = "import" ->
         (* the file is assembled in an anonymous scope below the importing one; everything it defines is then also
            visible (aliased) in the importing scope.  A test of the file keeps the path through the import scope. *)
@@ -177,11 +181,13 @@ LayStmt(s, st, sigma, active) ==
              [r EXCEPT !.scope = st.scope, !.tab = alias @@ @]
     [] OTHER -> [st EXCEPT !.bad = TRUE]
 
-SegDefs(prj) == IF prj.segdefs = <<>> THEN <<[name |-> "default", bank |-> "default", start |-> DEFAULT_PC]>> ELSE prj.segdefs
+SegDefs(prj) == IF prj.segdefs = <<>>
+                  THEN <<[name |-> "default", bank |-> "default", start |-> DEFAULT_PC, pc |-> DEFAULT_PC, write |-> TRUE, size |-> 0]>>
+                  ELSE prj.segdefs
 Lay0(prj) ==
   LET sd == SegDefs(prj) IN
   [segs |-> [n \in {sd[i].name : i \in 1..Len(sd)} |->
-               [pc |-> (CHOOSE d \in {sd[i] : i \in 1..Len(sd)} : d.name = n).start, mem |-> <<>>]],
+               LET d == CHOOSE d \in {sd[i] : i \in 1..Len(sd)} : d.name = n IN [pc |-> d.start, mem |-> <<>>, toff |-> d.pc - d.start]],
    cur |-> sd[1].name, scope |-> <<>>, tab |-> <<>>, idx |-> <<>>, asserts |-> <<>>, entry |-> -1, entry0 |-> -1, entrySeg |-> "",
    files |-> prj.files, inTest |-> FALSE, first |-> -1, unres |-> FALSE, bad |-> FALSE]
 Lay(prj, active, sigma) == LaySeq(prj.items, Lay0(prj), sigma, active)
@@ -196,21 +202,34 @@ Fix(prj, active, sigma, n) ==
   ELSE Fix(prj, active, r.tab, n - 1)
 
 (* RAM of a test: the segments of the bank the test lies in (later definitions over earlier); nothing else *)
-RECURSIVE BankMem(_, _, _)
-BankMem(sd, segs, bank) ==
+RECURSIVE BankMem(_, _, _, _)
+(* target = FALSE: the file image (written segments at their storage addresses);  TRUE: every segment at the address it runs at *)
+BankMem(sd, segs, bank, target) ==
   IF sd = <<>> THEN <<>>
-  ELSE LET rest == BankMem(Front(sd), segs, bank)
-           d == sd[Len(sd)] IN
-       IF d.bank = bank THEN segs[d.name].mem @@ rest ELSE rest
+  ELSE LET rest == BankMem(Front(sd), segs, bank, target)
+           d == sd[Len(sd)]
+           m == segs[d.name].mem
+           t == segs[d.name].toff IN
+       IF d.bank # bank THEN rest
+       ELSE IF target THEN [a \in {k + t : k \in DOMAIN m} |-> m[a - t]] @@ rest
+       ELSE IF d.write THEN m @@ rest ELSE rest
 
-(* T = [ok, entry, mem, asserts, sigma]: the assembled test (ok = FALSE: outside what the layout describes) *)
+(* T = [ok, entry, entry0, mem, mem0, asserts, allAsserts, sigma]: the assembled test (ok = FALSE: outside the layout)      *)
+(*   mem        what the test sees: its bank's file image, and every segment of the bank where its code runs                *)
+(*   mem0       the file image alone (implementation before the repair: deviation TestCodeNotAtTargetAddress)               *)
+(*   asserts    the assertions assembled into segments of the test's bank ("each test sees only the bank it is defined in") *)
+(*   allAsserts every assertion assembled (matched by pc alone: deviation AssertionOfOtherBankFires)                         *)
 Layout(prj, active) ==
   LET f == Fix(prj, active, <<>>, 6)
       sd == SegDefs(prj) IN
-  IF ~f.ok \/ f.lay.entry < 0 THEN [ok |-> FALSE, entry |-> 0, entry0 |-> 0, mem |-> <<>>, asserts |-> <<>>, sigma |-> <<>>, base |-> 0]
-  ELSE LET bank == (CHOOSE d \in {sd[i] : i \in 1..Len(sd)} : d.name = f.lay.entrySeg).bank IN
-       [ok |-> TRUE, entry |-> f.lay.entry, entry0 |-> f.lay.entry0, mem |-> BankMem(sd, f.lay.segs, bank), asserts |-> f.lay.asserts,
-        sigma |-> f.lay.tab, base |-> 0]
+  IF ~f.ok \/ f.lay.entry < 0 THEN [ok |-> FALSE, entry |-> 0, entry0 |-> 0, mem |-> <<>>, mem0 |-> <<>>, asserts |-> <<>>, allAsserts |-> <<>>,
+                                    sigma |-> <<>>, base |-> 0]
+  ELSE LET BankOf(n) == (CHOOSE d \in {sd[i] : i \in 1..Len(sd)} : d.name = n).bank
+           bank == BankOf(f.lay.entrySeg)
+           InBank(a) == BankOf(a.seg) = bank
+           m0 == BankMem(sd, f.lay.segs, bank, FALSE) IN
+       [ok |-> TRUE, entry |-> f.lay.entry, entry0 |-> f.lay.entry0, mem |-> BankMem(sd, f.lay.segs, bank, TRUE) @@ m0, mem0 |-> m0,
+        asserts |-> SelectSeq(f.lay.asserts, InBank), allAsserts |-> f.lay.asserts, sigma |-> f.lay.tab, base |-> 0]
 
 (* tests in the order `mos test' runs them (the harness supplies the order of their source positions) *)
 RECURSIVE TestNames(_, _)
@@ -221,6 +240,7 @@ TestNames(ss, scope) ==
                      [] s.k = "label" /\ s.hasBody -> TestNames(s.body, Append(scope, s.name))
                      [] s.k = "braces" -> TestNames(s.body, Append(scope, s.sid))
                      [] s.k = "useseg" -> TestNames(s.body, scope)
+                     [] s.k = "iftest" -> TestNames(s.body, scope)
                      [] OTHER -> <<>>
        IN here \o TestNames(Tail(ss), scope)
 
@@ -234,6 +254,15 @@ ImportedTests(prj, ss) ==
           THEN TestNames(prj.files[CHOOSE i \in 1..Len(prj.files) : prj.files[i].name = s.file].items, <<s.sid>>) ELSE <<>>)
        \o ImportedTests(prj, Tail(ss))
 OwnTests(prj) == TestNames(prj.items, <<>>)
+(* the tests an enumeration without the TEST constant finds (deviation TestConstantMissingAtEnumeration) *)
+RECURSIVE DropIfTest(_)
+DropIfTest(ss) == IF ss = <<>> THEN <<>>
+                  ELSE LET s == Head(ss) IN
+                       (IF s.k = "iftest" THEN <<>>
+                        ELSE IF s.k \in {"label", "braces", "useseg"} /\ s.body # <<>> THEN <<[s EXCEPT !.body = DropIfTest(s.body)]>>
+                        ELSE <<s>>) \o DropIfTest(Tail(ss))
+HasIfTest(prj) == DropIfTest(prj.items) # prj.items
+TestsWithoutTEST(prj) == TestNames(DropIfTest(prj.items), <<>>) \o ImportedTests(prj, prj.items)
 AllTests(prj) == OwnTests(prj) \o ImportedTests(prj, prj.items)
 
 (* ---------------------------------------------------------------- the property, declaratively *)
@@ -322,11 +351,14 @@ FiresOnceWitness(id) == id.v = "failed" /\ id.visit > 1
 
 (* the narrow witness under which a crash of `mos test' inside test T is a recorded finding:                *)
 (*  "overflow": T's path, every assertion on it true, arrives at an instruction that touches $FFFF (TopEdge) *)
+(*              or at a halting (KIL) opcode: both end in an arithmetic overflow panic inside the emulator     *)
 (*  ("silent": the property says nothing about T from some point on, so the witness cannot be evaluated)     *)
+KIL == {2, 18, 34, 50, 66, 82, 98, 114, 146, 178, 210, 242}      \* the halting opcodes: 0 cycles in the emulator crate's table
 CrashWitness(T) ==
   LET id == Ideal(T)
       p == Path(T) IN
-  IF id.v = "unspec" /\ Len(p) > 0 /\ TopEdge(p[Len(p)]) /\ Holds(T, p[Len(p)]) /\ Rd(p[Len(p)].mem, p[Len(p)].pc) # 0 THEN "overflow"
+  IF id.v = "unspec" /\ Len(p) > 0 /\ (TopEdge(p[Len(p)]) \/ Rd(p[Len(p)].mem, p[Len(p)].pc) \in KIL) /\ Holds(T, p[Len(p)])
+     /\ Rd(p[Len(p)].mem, p[Len(p)].pc) # 0 THEN "overflow"
   ELSE IF id.v = "unspec" THEN "silent"          \* the model has left the test earlier (decimal add, unmodelled instruction, fuel): it cannot tell
   ELSE "none"
 
